@@ -1015,8 +1015,8 @@ class Driver:
                     if rng.random() < 0.05:
                         force = True
                     pre.append(["engage", init, force, as_obj])
-                    if rng.random() < 0.05:
-                        pre.append(["engage", None, False, False])
+                    if rng.random() < (0.35 if init is not None else 0.05):
+                        pre.append(["engage", None, False, False])        # a second caller asks for the machine in the same iteration
                     if rng.random() < 0.002:
                         pre += [["engage", None, False, False]] * 60        # many callers ask for the machine in one iteration
                 r = rng.random()
